@@ -600,8 +600,10 @@ func (i *IRCServer) ThrottleUntil(sessionid robust.Id) time.Time {
 	if cooloff == 0 {
 		return time.Time{}
 	}
-	i.sessionsMu.RLock()
-	defer i.sessionsMu.RUnlock()
+	// This function modifies throttlingExponent, so the read lock is not
+	// sufficient.
+	i.sessionsMu.Lock()
+	defer i.sessionsMu.Unlock()
 
 	if s, ok := i.sessions[sessionid]; ok && !s.Server {
 		// Reset throttlingExponent when the session was idle long enough.
